@@ -993,6 +993,7 @@ func main() {
 	// --- the Lightning backend clients: bodies of the lightning.Client methods of the real backends (frozen: the
 	// models treat the backend as an oracle, so what the clients tell the mint about a node's answers is pinned here) ---
 	emitLnClientFacts(w, lnP)
+	emitMeltQuoteFacts(w, mintP)
 
 	w("\nend Gonuts.Gen\n")
 
@@ -2048,6 +2049,13 @@ func emitWireFacts(w func(string, ...any), repo string, mintP, cashuP, cryptoP, 
 	emitFields("fields_Supported", structFields(nut06P, "Supported"))
 	emitFields("fields_Nut19Setting", structFields(nut06P, "Nut19Setting"))
 	emitFields("fields_CachedEndpoint", structFields(nut06P, "CachedEndpoint"))
+}
+
+// the body of RequestMeltQuote (which invoice may be settled internally, F16; what the quote is for)
+func emitMeltQuoteFacts(w func(string, ...any), mintP *pkg) {
+	w("\n/-! ## Mint.RequestMeltQuote / settleQuotesInternally: bodies (go/printer, comments stripped) -/\n")
+	w("def src_RequestMeltQuote : List String := %s\n", leanStrList(bodyLines(findFunc(mintP, "Mint", "RequestMeltQuote"))))
+	w("def src_settleQuotesInternally : List String := %s\n", leanStrList(bodyLines(findFunc(mintP, "Mint", "settleQuotesInternally"))))
 }
 
 func emitLnClientFacts(w func(string, ...any), lnP *pkg) {
